@@ -22,8 +22,8 @@ CONTRACT_GROUPS = ['C10']   # icontract layer (vlib/contracts.py) active inside 
 RULE = ("case = one configuration with R x P injected sample vectors; an entry is non-trivial if its raw value x + m*s lies outside the bounds (boundary semantics exercised) "
         "- counted per boundary type; a case is non-trivial if it has such an entry; distinct key = case index")
 ASSUMPTIONS = ["variables inside the bounds; magnitudes positive"]
-REQUIRED = {"quick": {"entries_checked": 32228, "outside.NONE": 800, "outside.TRUNCATE_BOTH": 800, "outside.MIRROR_BOTH": 800, "mirror_single_reflection": 300, "relative_magnitude_entries": 2000, "evaluator_rows_checked": 3000, "with_variable_scaler": 400, "__nontrivial__": 400},
-            "thorough": {"entries_checked": 2161249, "outside.NONE": 30000, "outside.TRUNCATE_BOTH": 30000, "outside.MIRROR_BOTH": 30000, "mirror_single_reflection": 10000, "relative_magnitude_entries": 80000, "evaluator_rows_checked": 100000, "with_variable_scaler": 25000, "__nontrivial__": 15000}}
+REQUIRED = {"quick": {"entries_checked": 32228, "outside.NONE": 800, "outside.TRUNCATE_BOTH": 800, "outside.MIRROR_BOTH": 800, "mirror_single_reflection": 300, "relative_magnitude_entries": 2000, "evaluator_rows_checked": 3000, "with_variable_scaler": 400, "with_section_objects_used_before": 400, "__nontrivial__": 400},
+            "thorough": {"entries_checked": 2161249, "outside.NONE": 30000, "outside.TRUNCATE_BOTH": 30000, "outside.MIRROR_BOTH": 30000, "mirror_single_reflection": 10000, "relative_magnitude_entries": 80000, "evaluator_rows_checked": 100000, "with_variable_scaler": 25000, "with_section_objects_used_before": 25000, "__nontrivial__": 15000}}
 N = {"quick": 3000, "thorough": 200000}
 NAMES = {1: "NONE", 2: "TRUNCATE_BOTH", 3: "MIRROR_BOTH"}
 
@@ -76,7 +76,24 @@ def run_case(case, obs):
         case["tspec"] = {"vscale": np.round(10 ** rng.uniform(-0.7, 0.7, size=V), 3).tolist(), "voffset": np.round(rng.normal(size=V), 3).tolist() if rng.random() < 0.5 else None}
         T = make_transforms(case["tspec"])
         obs.count("with_variable_scaler")
-    cfg = ens.make_config(spec, T)
+    if rng.random() < 0.3:
+        # the sections of the configuration are handed over as objects that an earlier configuration (other bounds,
+        # same or no scaler) has already used: the settings of this configuration are the ones that count
+        from ropt.config.enopt import EnOptConfig, GradientConfig  # noqa: PLC0415
+
+        d = ens.make_config_dict(spec)
+        gobj = GradientConfig(**d["gradient"])
+        other = dict(d)
+        other["gradient"] = gobj
+        other["variables"] = dict(d["variables"])
+        other["variables"]["lower_bounds"] = (np.where(np.isfinite(lb), lb - 7.0, lb)).tolist()
+        other["variables"]["upper_bounds"] = (np.where(np.isfinite(ub), ub + 13.0, ub)).tolist()
+        EnOptConfig.model_validate(other, context=T if rng.random() < 0.5 else None)
+        d["gradient"] = gobj
+        cfg = EnOptConfig.model_validate(d, context=T)
+        obs.count("with_section_objects_used_before")
+    else:
+        cfg = ens.make_config(spec, T)
     ev = ens.RecordingEvaluator(spec)
     ee = EnsembleEvaluator(cfg, T, ev, ens.plugin_manager())
     xin = np.asarray(cfg.variables.initial_values, dtype=float)
